@@ -78,12 +78,15 @@ struct Scenario {
   virtual std::string script(World &, Proc &) { return std::string(); }
   virtual bool local_op(World &, Proc &, const Req &) { return false; }   // extra ops that need no scheduling point
   virtual int connect(World &, Proc &, int fd) { (void) fd; return -ECONNREFUSED; }
+  // the running process repeats the same block of calls with the same results and nobody else can run: a busy loop
+  virtual void on_livelock(World &, Proc &);
 };
 
 static inline uint64_t fnv(uint64_t h, const void *p, size_t n) { const unsigned char *s = (const unsigned char *) p; for (size_t i = 0; i < n; i++) { h ^= s[i]; h *= 1099511628211ULL; } return h; }
 static inline uint64_t fnvs(uint64_t h, const std::string &s) { return fnv(h, s.data(), s.size()); }
 
 struct HarnessError { std::string msg; };
+inline void Scenario::on_livelock(World &, Proc &p) { throw HarnessError{"livelock: " + p.name + " repeats the same calls forever and no other process can run"}; }
 
 struct World {
   Kernel k;
@@ -106,6 +109,23 @@ struct World {
   bool slot_used[VK_NSLOTS];
   std::vector<pid_t> realpids;
   long sched_points = 0;
+  // fairness (Musuvathi/Qadeer 2008): a process that repeats an identical block of calls ending in select() is spin-waiting;
+  // it yields to the next enabled process without cost, and if nobody else is enabled it is a livelock
+  std::vector<uint64_t> curlog; std::vector<char> curlog_sel; int curlog_pid = -1; bool force_yield = false; long forced_yields = 0;
+  void fair_note(Proc &p, const Step &st) {
+    if (p.vpid != curlog_pid) { curlog.clear(); curlog_sel.clear(); curlog_pid = p.vpid; }
+    uint64_t h = 1469598103934665603ULL; h = fnv(h, &st.op, sizeof st.op); h = fnv(h, st.a, sizeof st.a); h = fnv(h, &st.ret, sizeof st.ret); h = fnv(h, &st.err, sizeof st.err); h = fnvs(h, st.path);
+    if (st.data) h = fnvs(h, *st.data);
+    curlog.push_back(h); curlog_sel.push_back(st.op == VK_SELECT);
+    if (st.op != VK_SELECT) return;
+    size_t n = curlog.size();
+    for (size_t k = 1; 2 * k <= n && k <= 400; k++) {
+      if (!curlog_sel[n - 1 - k]) continue;
+      bool same = true; for (size_t i = 0; i < k && same; i++) if (curlog[n - 1 - i] != curlog[n - 1 - k - i]) same = false;
+      if (same && 3 * k <= n) { for (size_t i = 0; i < k && same; i++) if (curlog[n - 1 - i] != curlog[n - 1 - 2 * k - i]) same = false; } else same = false;
+      if (same) { force_yield = true; return; }
+    }
+  }
 
   World() { memset(slot_used, 0, sizeof slot_used); }
 
@@ -146,7 +166,7 @@ struct World {
     int spins = 0; long waited_ms = 0;
     for (;;) {
       if (__atomic_load_n(&s->state, __ATOMIC_SEQ_CST) == VK_S_REQ) break;
-      if (++spins < 200) { __builtin_ia32_pause(); continue; }
+      if (++spins < 2) { continue; }
       int v = __atomic_load_n(&shm->ctl_futex, __ATOMIC_SEQ_CST);
       if (__atomic_load_n(&s->state, __ATOMIC_SEQ_CST) == VK_S_REQ) break;
       struct timespec ts = {0, 5 * 1000 * 1000};
@@ -365,6 +385,11 @@ struct World {
       if (curp) en.insert(en.begin(), curp);
       if (en.empty()) { if (!scn->on_quiescent(*this)) break; continue; }
       size_t pick = 0;
+      if (force_yield) {
+        force_yield = false;
+        if (curp && en.size() > 1) { pick = 1; forced_yields++; curlog.clear(); curlog_sel.clear(); Proc &q = *en[pick]; cur = q.vpid; step(q); continue; }
+        if (curp && en.size() == 1) { scn->on_livelock(*this, *curp); if (aborted) break; curlog.clear(); curlog_sel.clear(); }
+      }
       if (en.size() > 1) {
         bool loc = curp && (intrinsic_local(curp->req.op) || scn->local_op(*this, *curp, curp->req)) && !deliverable(*curp);
         if (!loc) {
